@@ -16,6 +16,7 @@ package h2
 
 import (
 	"fmt"
+	"sync/atomic"
 
 	"golang.org/x/net/http2"
 )
@@ -60,6 +61,8 @@ type queuedDataFrame struct {
 	streamID  uint32
 	endStream bool
 	data      []byte
+	// maxFrameSize points to the receiver's current SETTINGS_MAX_FRAME_SIZE, accessed atomically.
+	maxFrameSize *uint32
 }
 
 func (f *queuedDataFrame) StreamID() uint32 {
@@ -71,7 +74,17 @@ func (f *queuedDataFrame) flowControlSize() int {
 }
 
 func (f *queuedDataFrame) send(dest *http2.Framer) error {
-	return dest.WriteData(f.streamID, f.endStream, f.data)
+	data := f.data
+	// The frame was cut to the max frame size in force when it was queued. The receiver may have
+	// lowered it while the frame waited for window.
+	if f.maxFrameSize != nil {
+		for m := int(atomic.LoadUint32(f.maxFrameSize)); m > 0 && len(data) > m; data = data[m:] {
+			if err := dest.WriteData(f.streamID, false, data[:m]); err != nil {
+				return err
+			}
+		}
+	}
+	return dest.WriteData(f.streamID, f.endStream, data)
 }
 
 func (f *queuedDataFrame) String() string {
